@@ -2,13 +2,13 @@
 import json, os
 from lib import fw
 
-MODULES = ["SunriseVerif.Props.C18", "SunriseVerif.Props.ParamGuards", "SunriseVerif.Props.ParamGuardsFee"]
+MODULES = ["SunriseVerif.Props.C18", "SunriseVerif.Props.ParamGuards", "SunriseVerif.Props.ParamGuardsFee", "SunriseVerif.Props.TieFee"]
 
 
 def run(ctx):
     if not ctx.translate():
         return
-    ok = ctx.prove(MODULES, needs_gen=["KernelsFee", "KernelsGovFee", "KernelsParamsFee"])
+    ok = ctx.prove(MODULES, needs_gen=["KernelsFee", "KernelsGovFee", "KernelsParamsFee", "KernelsTieFee"])
     # the real fee decorator (direct, CheckTx, FinalizeBlock) and Keeper.Burn vs the Lean model + property oracles
     res = fw.corr(ctx, "fee", 300 if ctx.thorough() else 10)
     fw.report_corr(ctx, "fee", res)
